@@ -105,13 +105,6 @@ inductive Justification
   /-- Windows `memory_maps()`: a generator, so it converts by hand
       (`except OSError as err: raise convert_oserror(err, self.pid, self._name)`) -/
   | handTranslated
-  /-- Windows `ppid()`: no per-process OS call at all, only the system-wide `ppid_map()`;
-      an absent key is turned into NoSuchProcess by hand.
-      DEAD since /repo 61843a1: `ppid()` now carries `wrap_exceptions` (obligation
-      `cfg_win_ppid_wrapped`), so `methodOK` is satisfied by `m.wrapped` and never consults this
-      justification; the constructor and its branch in `justification` are kept only as a record of
-      the superseded shape. -/
-  | systemWideOnly
   /-- AIX `open_files()`: runs `/usr/bin/procfiles` and reads "no such process" from its stderr -/
   | externalTool
   deriving DecidableEq, Repr
@@ -129,7 +122,9 @@ def justification (p : Platform) (m : String) : Option Justification :=
     if m == "_proc_info" || m == "_get_raw_meminfo" then some .helperOfWrapped
     else if m == "name" then some .viaWrappedMethod
     else if m == "memory_maps" then some .handTranslated
-    else if m == "ppid" then some .systemWideOnly
+    -- `ppid` has no entry: since /repo 61843a1 it carries `wrap_exceptions` (it is *decorated*, obligation
+    -- `cfg_win_ppid_wrapped`); if the decorator were dropped again, `methodOK .windows ppid` is false and
+    -- `C20_all_methods_wrapped` stops building
     else none
 
 def methodOK (p : Platform) (m : Method) : Bool :=
@@ -523,5 +518,223 @@ theorem cfg_win_maps_loop_guarded : cfg.winMapsLoopGuarded = true := by decide
     as it is now. -/
 theorem C20_method_faults_within_spec_code : C20_method_faults_within_spec_Full :=
   C20_method_faults_full_when_repaired cfg_win_ppid_wrapped cfg_win_maps_loop_guarded
+
+/-! ## 6. Round 2: the native C calls, documented namedtuple fields, identity / equality / signals -/
+
+/-- one slot map × identity: the C call has as many arguments as format units, as the Python map
+    has slots and as the emulator's stub record has positions; the reviewed table names a C
+    expression for exactly the map's slots; and the argument at the index the Python map gives a
+    slot IS the C expression the table gives for that slot name -/
+def nativeOrderOK (key ident : String) : Bool :=
+  let sm := slotMapOf key
+  match nativeArgsOf key ident, Spec.slotCExpr.lookup (key, ident) with
+  | some (fmt, args), some tbl =>
+    args.length == sm.length && fmt.length == args.length && tbl.length == sm.length &&
+    stubLenOf key ident == some args.length &&
+    sm.all fun kv =>
+      match tbl.lookup kv.1 with
+      | some ce => args[kv.2]? == some ce
+      | none => false
+  | _, _ => false
+
+/-- a native tuple the Python side unpacks positionally: the C arguments are the table's, in order -/
+def nativeTupleOK (k : String × String) : Bool :=
+  match nativeArgsOf k.1 k.2, Spec.tupleCExpr.lookup k with
+  | some (fmt, args), some tbl =>
+    args == tbl.map (·.2) && fmt.length == args.length && stubLenOf k.1 k.2 == some args.length
+  | _, _ => false
+
+/-- **C20_native_slot_order.** For `kinfo_proc_map` (FreeBSD, OpenBSD, NetBSD, macOS),
+    `pidtaskinfo_map`, both `proc_info_map`s and `pinfo_map`: slot `i` of the Python map is the
+    `i`-th argument of the `Py_BuildValue` call of the C function that builds the record — the
+    call itself (format string and argument list, read by the translator through the
+    preprocessor branch of each identity), matched by name through the reviewed table
+    `Spec.slotCExpr`. The same for the native tuples unpacked positionally (`proc_cred`,
+    `proc_cpu_times`, `proc_num_ctx_switches`, `proc_io_counters`, `proc_times`,
+    `proc_memory_info`). The stub records of the emulation have the same length; there is no
+    parsed call outside the two tables; and the Windows tuple orders are the field orders of
+    `pmem` (after `rss`, `vms`) and `pio`. A swapped C argument, a swapped Python index, an added
+    or dropped slot on either side breaks this. -/
+theorem C20_native_slot_order :
+    (∀ k ∈ slotMapKeys, nativeOrderOK k.1 k.2 = true) ∧
+    (∀ k ∈ Spec.tupleCExpr.map (·.1), nativeTupleOK k = true) ∧
+    (∀ r ∈ Gen.C20.nativeArgs, r.1 ∈ slotMapKeys ∨ r.1 ∈ Spec.tupleCExpr.map (·.1)) ∧
+    ((Spec.tupleCExpr.lookup ("proc_memory_info", "windows")).map (·.map (·.1)) = some Spec.winMemTupleFields) ∧
+    ((Spec.tupleCExpr.lookup ("proc_io_counters", "windows")).map (·.map (·.1)) = actualFieldsOf .windows "pio") := by
+  decide +kernel
+
+/-- non-vacuous: FreeBSD's slot 14 (`user_time`) is `PSUTIL_TV2DOUBLE(kp.ki_rusage.ru_utime)` -/
+example : (nativeArgsOf "bsd.kinfo_proc_map" "freebsd").map (·.2[14]?) = some (some "PSUTIL_TV2DOUBLE(kp.ki_rusage.ru_utime)") ∧
+    (slotMapOf "bsd.kinfo_proc_map").lookup "user_time" = some 14 := by decide +kernel
+
+/-- **C20_native_saved_gid_characterisation.** (Native layer, beyond the statement.) On the three
+    BSDs the argument at the slot the Python side calls `saved_gid` is the same C expression as
+    the one at `saved_uid` — the saved *uid* member (`ki_svuid` / `p_svuid`): `gids().saved` is
+    the saved uid there. -/
+theorem C20_native_saved_gid_characterisation :
+    ∀ ident ∈ ["freebsd", "openbsd", "netbsd"],
+      (match nativeArgsOf "bsd.kinfo_proc_map" ident,
+             (slotMapOf "bsd.kinfo_proc_map").lookup "saved_gid", (slotMapOf "bsd.kinfo_proc_map").lookup "saved_uid" with
+       | some (_, args), some g, some u => g != u && args[g]? == args[u]? && (args[g]?).isSome
+       | _, _, _ => false) = true := by
+  decide +kernel
+
+/-- one documented field list against the namedtuple the package defines on that platform -/
+def fieldsRowOK (p : Platform) (row : String × String × Bool × List String) : Bool :=
+  match actualFieldsOf p row.2.1 with
+  | none => false
+  | some act =>
+    row.2.2.2.all (fun f => act.contains f || Spec.fieldGaps.contains (p.key, row.1, f)) &&
+    (!row.2.2.1 || row.2.2.2.isSublist act)
+
+theorem api_fields_table : ∀ p ∈ Platform.all, ∀ row ∈ docFieldsOf p, fieldsRowOK p row = true := by
+  decide +kernel
+
+/-- **C20_api_fields.** For every platform identity and every function / Process method for which
+    docs/index.rst lists namedtuple fields (bullets with their `*(platforms)*` notes, or a column
+    of a per-platform field table): the namedtuple type exists in the package imported as that
+    platform, every field documented for the platform is one of its `_fields` (or one of the six
+    listed Solaris/AIX gaps), and where the docs give an order (table columns) the documented
+    fields appear in that order. -/
+theorem C20_api_fields (p : Platform) :
+    ∀ row ∈ docFieldsOf p, ∃ act, actualFieldsOf p row.2.1 = some act ∧
+      (∀ f ∈ row.2.2.2, f ∈ act ∨ (p.key, row.1, f) ∈ Spec.fieldGaps) ∧
+      (row.2.2.1 = true → row.2.2.2.Sublist act) := by
+  intro row hrow
+  have h := api_fields_table p (Platform.mem_all p) row hrow
+  unfold fieldsRowOK at h
+  cases hact : actualFieldsOf p row.2.1 with
+  | none => simp [hact] at h
+  | some act =>
+    simp only [hact, Bool.and_eq_true, List.all_eq_true, Bool.or_eq_true] at h
+    refine ⟨act, rfl, ?_, ?_⟩
+    · intro f hf
+      rcases h.1 f hf with h1 | h1
+      · exact Or.inl (by simpa using h1)
+      · exact Or.inr (by simpa using h1)
+    · intro ho
+      have := h.2
+      simp [ho] at this
+      exact this
+
+/-- non-vacuous: Windows `Process.memory_info()` documents twelve ordered fields, `wset` among them -/
+example : ("Process.memory_info", "pmem", true, Spec.winPmemFields) ∈ docFieldsOf .windows := by decide +kernel
+
+/-- **C20_api_fields_gaps_characterisation.** The listed gaps are exact: each one is a field the
+    docs promise for that platform and the platform's namedtuple really lacks (so the list can
+    neither hide a new gap nor keep a closed one). -/
+theorem C20_api_fields_gaps_characterisation :
+    Spec.fieldGaps.all (fun g =>
+      match Platform.ofKey? g.1 with
+      | some p => (docFieldsOf p).any fun row =>
+          row.1 == g.2.1 && row.2.2.2.contains g.2.2 &&
+            (match actualFieldsOf p row.2.1 with | some act => !act.contains g.2.2 | none => false)
+      | none => false) = true := by
+  decide +kernel
+
+/-! ### `Process._get_ident` (Windows: fast creation time only) -/
+
+/-- the native calls of `create_time()` in the generated traces (pid 42 and pid 0) -/
+def ctimeRows (p : Platform) : List (String × Nat × List String) :=
+  (tracesOf p).filter fun r => r.1 == "create_time"
+
+def identRowOK (p : Platform) (row : String × Nat × List String) : Bool :=
+  match methodOf? p "create_time" with
+  | none => false
+  | some m =>
+    row.2.2.all fun call => (sweptErrs p).all fun e => (sweptEnvs row.2.1).all fun env =>
+      [true, false].all fun ign =>
+        frontInit ign 1 (identFault cfg p m call e env) == Spec.initExpected p e env ign
+
+/-- **C20_front_ident.** `Process(pid)` on every identity: for every native call the creation-time
+    query makes × swept error × pid state × pid-0 listing × `_ignore_nsp`: what the constructor
+    is left with — `_ident = (pid, None)` for a permission failure or a zombie, NoSuchProcess
+    "process PID not found" (or the gone flag), another error unchanged — is what the contract
+    cell of that failure says. On Windows this holds *because* the identity uses
+    `create_time(fast_only=True)`: no slower fall-back hides the permission failure. -/
+theorem C20_front_ident :
+    ∀ p ∈ Platform.all, ctimeRows p ≠ [] ∧ ∀ row ∈ ctimeRows p, identRowOK p row = true := by
+  decide +kernel
+
+/-- without a fault the identity is (pid, creation time) and the creation time is cached -/
+theorem C20_front_ident_ok (ign : Bool) (ct : Nat) : frontInit ign ct .value = .built (some ct) (some ct) false := rfl
+
+/-- **C20_front_ident_fast_only.** The `WINDOWS` branch of `_get_ident` takes effect: a permission
+    failure of `proc_times` is AccessDenied for the identity query (`fast_only=True`), whereas the
+    public `create_time()` answers it from the system-wide process list. For every error the
+    Windows layer counts as a permission failure. -/
+theorem C20_front_ident_fast_only (e : Err) (env : Env) (h : isPermissionErr cfg.win e = true) :
+    identFault cfg .windows ⟨"create_time", ["wrap_exceptions"]⟩ "proc_times" e env = .ad env.pid true ∧
+    (methodFault cfg .windows ⟨"create_time", ["wrap_exceptions"]⟩ "proc_times" e env false).1 = .value := by
+  have hw := winCfg_generated
+  constructor
+  · simp [identFault, innerIdent, bodyWith, finish, Method.retries, escape, Method.wrapped, wrapExceptions,
+      runClauses_eq_dispatch, dispatch_cfg, actionTable, runAction, convertOserror, Platform.family]
+    rw [hw] at h ⊢
+    simp [convertOserrorGo, h]
+  · simp [methodFault, body, inner, bodyWith, finish, h]
+
+/-! ### `Process.__eq__` (OpenBSD / NetBSD zombies) -/
+
+/-- **C20_front_eq.** Equality of two Process objects: on OpenBSD / NetBSD, same pid, the first
+    with a creation time and the second without (None or 0.0): equal iff the process is a zombie
+    now (`status()` says so, or raises ZombieProcess; another error: not equal); in every other
+    case, and on every other platform, equality of (pid, creation time). For all identities. -/
+theorem C20_front_eq (obn : Bool) (i1 i2 : Nat × Option Nat) (st : StatusRes) :
+    frontEq obn i1 i2 st = Spec.eqExpected obn i1 i2 (Spec.zombieNow st) := by
+  obtain ⟨p1, c1⟩ := i1
+  obtain ⟨p2, c2⟩ := i2
+  have hpair : ((p1, c1) == (p2, c2)) = (p1 == p2 && c1 == c2) := rfl
+  unfold frontEq Spec.eqExpected
+  simp only [hpair]
+  cases obn <;> cases st <;> cases c1 <;> cases c2 <;>
+    simp [ctimeTruthy, Spec.zombieNow] <;>
+    (try (by_cases hp : p1 = p2 <;> simp [hp])) <;>
+    (try (rename_i a b; by_cases ha : a = 0 <;> by_cases hb : b = 0 <;> simp_all)) <;>
+    (try (rename_i a; by_cases ha : a = 0 <;> simp_all))
+
+/-- the branch matters: a process that had ctime 1110 and now shows 0.0 as a zombie is the same
+    process on NetBSD, a different one on FreeBSD -/
+example : frontEq true (42, some 1110) (42, some 0) (.status true) = true ∧
+    frontEq false (42, some 1110) (42, some 0) (.status true) = false := by decide
+
+/-! ### signals -/
+
+/-- **C20_front_send_signal_posix.** POSIX `send_signal` / `terminate` / `kill` / `suspend` / `resume`
+    (all `_send_signal`): PID 0 is refused; ESRCH → NoSuchProcess(pid, name) and the object is
+    marked gone — except on OpenBSD while the pid still exists: ZombieProcess(pid, name, ppid), not
+    marked gone; EPERM / EACCES → AccessDenied(pid, name); any other error unchanged. -/
+theorem C20_front_send_signal_posix (openbsd : Bool) (pid : Nat) (k : KillRes) (ex : Bool) :
+    (frontSendSignalPosix openbsd pid k ex).1 = Spec.sendSignalPosixExpected openbsd pid k ex ∧
+    ((frontSendSignalPosix openbsd pid k ex).2 = true ↔
+      (frontSendSignalPosix openbsd pid k ex).1 = .nsp true) := by
+  unfold frontSendSignalPosix Spec.sendSignalPosixExpected
+  by_cases h0 : pid = 0
+  · simp [h0]
+  · cases k <;> cases openbsd <;> cases ex <;> simp [h0]
+
+/-- **C20_front_send_signal_windows.** Off POSIX: `send_signal(SIGTERM)`, `terminate()` and `kill()`
+    all end in `proc_kill`; `CTRL_C_EVENT` / `CTRL_BREAK_EVENT` go to `os.kill` when the process is
+    running and are NoSuchProcess when it is not; any other signal is refused with ValueError
+    (NoSuchProcess when the process is not running). -/
+theorem C20_front_send_signal_windows (sig : WinSig) (running : Bool) :
+    frontSendSignalWin sig running = Spec.sendSignalWinExpected sig running ∧
+    frontTerminateWin = frontKillWin ∧ frontSendSignalWin .sigterm running = frontKillWin := by
+  cases sig <;> cases running <;> decide
+
+/-- **C20_front_send_signal_windows_contract.** … and an OSError raised by the primitive the signal
+    ends in (`proc_kill`, `os.kill`) meets the decorator of the platform layer's `send_signal` /
+    `kill`: the contract cell, for every error, pid and state. -/
+theorem C20_front_send_signal_windows_contract (meth : String) (hm : meth = "send_signal" ∨ meth = "kill")
+    (call : String) (hc : call = "proc_kill" ∨ call = "os.kill") (e : Err) (env : Env) :
+    (methodFault cfg .windows ⟨meth, ["wrap_exceptions"]⟩ call e env false).1 = Spec.contract .windows e env := by
+  have hi : inner cfg .windows meth call = .escapes := by
+    rcases hm with rfl | rfl <;> rcases hc with rfl | rfl <;> decide
+  simp [methodFault, body, hi, bodyWith, finish, Method.retries, escape, Method.wrapped]
+  exact C20_error_contract .windows e env
+
+/-- the two methods are in the generated list with exactly that decorator -/
+example : methodOf? .windows "send_signal" = some ⟨"send_signal", ["wrap_exceptions"]⟩ ∧
+    methodOf? .windows "kill" = some ⟨"kill", ["wrap_exceptions"]⟩ := by decide +kernel
 
 end Psutil.C20
